@@ -19,8 +19,8 @@ func All() []*Info {
 	var out []*Info
 	ed := edwards25519.NewBlakeSHA256Ed25519()
 	out = append(out,
-		&Info{Name: "ed25519", Family: "ed25519", Group: ed, Order: OrderEd25519, ScalarLE: true, ScalarTy: "ed25519-limb", CanBase: true, CanPick: true, CanEmbed: true},
-		&Info{Name: "ed25519-vartime-mul", Family: "ed25519", Group: ed, Order: OrderEd25519, ScalarLE: true, ScalarTy: "ed25519-limb", VarTime: true, CanBase: true, CanPick: true, CanEmbed: true},
+		&Info{Name: "ed25519", Family: "ed25519", Group: ed, Order: OrderEd25519, ScalarLE: true, ScalarTy: "ed25519-limb", UnreducedOK: true, CanBase: true, CanPick: true, CanEmbed: true},
+		&Info{Name: "ed25519-vartime-mul", Family: "ed25519", Group: ed, Order: OrderEd25519, ScalarLE: true, ScalarTy: "ed25519-limb", UnreducedOK: true, VarTime: true, CanBase: true, CanPick: true, CanEmbed: true},
 	)
 	proj := new(edwards25519vartime.ProjectiveCurve).Init(edwards25519vartime.ParamEd25519(), false)
 	ext := new(edwards25519vartime.ExtendedCurve).InitCurve(edwards25519vartime.ParamEd25519(), false)
